@@ -589,6 +589,11 @@ fn main() {
         let mut rng = Rng::new(seed ^ 0x316d);
         run_mix(&mut ctx, seed, |c, e| exec(c, e, &mut rng));
     }
+    // and concurrently: the same sample on several threads at once (shared state inside the library)
+    run_mix_concurrent(&mut ctx, seed, cli.threads, |c, e| {
+        let mut rng = Rng::new(e.digest());
+        exec(c, e, &mut rng)
+    });
     let mut required: Vec<String> = Vec::new();
     for size in ["small", "wide"] {
         for a in ["zero", "one", "literal", "multi"] {
